@@ -260,6 +260,9 @@ pub struct EngineSlot {
     /// C19: engine that received only the updates the model accepted
     pub twin: Option<Engine>,
     pub heavy: bool,
+    /// the `Arc<Voice>`s the engine was last built from, if the harness (playing the caller) kept them
+    /// (Rebuild how 3); empty otherwise
+    pub private_arcs: Vec<Arc<Voice>>,
 }
 
 pub struct GenSlot {
@@ -689,7 +692,7 @@ impl<'a> Sim<'a> {
                 let model = CondModel::fresh(&eng, voices.len());
                 let twin = if self.prop == Prop::C19 { Some(eng.clone()) } else { None };
                 let heavy = voices.iter().any(|v| !matches!(v, VoiceRef::Gen(_)));
-                self.engines[*e] = Some(EngineSlot { eng: Eng::Owned(eng), vs_id: ids, voices: voices.clone(), model, twin, heavy });
+                self.engines[*e] = Some(EngineSlot { eng: Eng::Owned(eng), vs_id: ids, voices: voices.clone(), model, twin, heavy, private_arcs: Vec::new() });
                 self.note(0x10 + *e as u64);
                 if matches!(self.prop, Prop::C20 | Prop::C19 | Prop::C03) {
                     // defaults of a freshly loaded engine
@@ -712,7 +715,7 @@ impl<'a> Sim<'a> {
                 let ns = s.model.nstream();
                 let a = snapshot(&s.eng.condition, ns);
                 let b = snapshot(&cl.condition, ns);
-                let slot = EngineSlot { eng: Eng::Owned(cl), vs_id: s.vs_id.clone(), voices: s.voices.clone(), model: s.model.clone(), twin: s.twin.clone(), heavy: s.heavy };
+                let slot = EngineSlot { eng: Eng::Owned(cl), vs_id: s.vs_id.clone(), voices: s.voices.clone(), model: s.model.clone(), twin: s.twin.clone(), heavy: s.heavy, private_arcs: s.private_arcs.clone() };
                 self.engines[*dst] = Some(slot);
                 self.stats.probe("clone");
                 self.note(0x20 + (*src * 8 + *dst) as u64);
@@ -748,6 +751,7 @@ impl<'a> Sim<'a> {
                 d.voices = s.voices.clone();
                 d.model = s.model.clone();
                 d.heavy = s.heavy;
+                d.private_arcs = s.private_arcs.clone();
                 let ns = s.model.nstream();
                 let a = snapshot(&s.eng.condition, ns);
                 let b = snapshot(&d.eng.condition, ns);
@@ -772,10 +776,28 @@ impl<'a> Sim<'a> {
                     return Ok(());
                 }
                 self.stats.api_calls += 1;
-                let how = *how % 3;
+                let how = if self.prop == Prop::C03 || self.prop == Prop::C02 { *how % 5 } else { *how % 3 };
+                // how 3 / 4: the same voices by content, in other allocations / in shared allocations
+                let mut new_arcs: Vec<Arc<Voice>> = Vec::new();
+                if how >= 3 {
+                    let refs = slot.voices.clone();
+                    for v in &refs {
+                        let (a, _) = self.env.voice(v).map_err(|e| Stop::Harness(HarnessError(e)))?;
+                        new_arcs.push(if how == 3 { Arc::new((*a).clone()) } else { a });
+                    }
+                }
+                let slot = self.engines[*e].as_mut().unwrap();
+                if how >= 3 {
+                    slot.private_arcs = if how == 3 { new_arcs.clone() } else { Vec::new() };
+                }
                 let r = {
                     let eng = slot.eng.owned_mut().unwrap();
                     guarded(|| match how {
+                        3 | 4 => {
+                            let vs = VoiceSet::new(new_arcs.clone()).expect("equal voices are combinable");
+                            let rebuilt = Engine::new(vs, eng.condition.clone());
+                            *eng = rebuilt;
+                        }
                         0 => {
                             let rebuilt = Engine::new(eng.voices.clone(), eng.condition.clone());
                             *eng = rebuilt;
@@ -804,6 +826,58 @@ impl<'a> Sim<'a> {
                     self.check_model(*e, match self.prop { Prop::C19 => "C19.weights-model", Prop::C20 => "C20.setter-model", _ => "C03.settings-model" })?;
                 }
                 Ok(())
+            }
+            Op::ReplaceInPlace { e, voices } => {
+                let usable = self.engines.get(*e).and_then(|x| x.as_ref()).map(|s| !s.eng.is_shared() && !s.private_arcs.is_empty() && s.private_arcs.len() == voices.len() && s.twin.is_none()).unwrap_or(false);
+                if !usable {
+                    self.stats.noop_ops += 1;
+                    return Ok(());
+                }
+                let mut contents: Vec<Voice> = Vec::new();
+                let mut ids = Vec::new();
+                for v in voices {
+                    let (a, id) = self.env.voice(v).map_err(|e| Stop::Harness(HarnessError(e)))?;
+                    contents.push((*a).clone());
+                    ids.push(id);
+                }
+                {
+                    // only voices with the very same metadata: the condition stays valid as it is
+                    let cur = &self.engines[*e].as_ref().unwrap().private_arcs;
+                    let same = cur.iter().zip(&contents).all(|(a, b)| a.metadata == b.metadata && a.stream_models.len() == b.stream_models.len() && a.stream_models.iter().zip(&b.stream_models).all(|(x, y)| x.metadata == y.metadata));
+                    if !same {
+                        self.stats.noop_ops += 1;
+                        return Ok(());
+                    }
+                }
+                let old = self.engines[*e].take().unwrap();
+                let EngineSlot { eng, vs_id: old_ids, voices: old_voices, model, twin, heavy, mut private_arcs } = old;
+                let Eng::Owned(engine) = eng else { unreachable!() };
+                let cond = engine.condition.clone();
+                self.stats.api_calls += 1;
+                drop(engine); // the caller drops the engine and is now the only owner of the voices ...
+                let unique = private_arcs.iter().all(|a| Arc::strong_count(a) == 1);
+                let (new_ids, new_voices) = if unique {
+                    for (a, c) in private_arcs.iter_mut().zip(contents) {
+                        *Arc::get_mut(a).expect("unique") = c; // ... overwrites them in place ...
+                    }
+                    self.stats.probe("voices_replaced_in_place_at_the_same_address");
+                    (ids, voices.clone())
+                } else {
+                    // a clone of the engine is still alive: nothing is overwritten
+                    (old_ids, old_voices)
+                };
+                let arcs = private_arcs.clone();
+                let r = guarded(|| VoiceSet::new(arcs).map(|vs| Engine::new(vs, cond)).map_err(|e| e.to_string())); // ... and builds it again
+                self.note(0x6100 + *e as u64);
+                match r {
+                    Ok(Ok(engine)) => {
+                        self.engines[*e] = Some(EngineSlot { eng: Eng::Owned(engine), vs_id: new_ids, voices: new_voices, model, twin, heavy, private_arcs });
+                        self.check_model(*e, "C03.settings-model")?;
+                        Ok(())
+                    }
+                    Ok(Err(e)) => Err(Stop::Harness(HarnessError(format!("engine over voices replaced in place refused: {}", e)))),
+                    Err(p) => Err(Stop::Harness(HarnessError(format!("engine over voices replaced in place panicked: {}", p.msg)))),
+                }
             }
             Op::CloneCond { src, dst } => {
                 if *src >= MAX_ENGINES || *dst >= MAX_ENGINES || src == dst || self.engines[*src].is_none() || self.engines[*dst].is_none() {
@@ -880,6 +954,7 @@ impl<'a> Sim<'a> {
                 slot.model = m;
                 slot.vs_id = ids;
                 slot.voices = voices.clone();
+                slot.private_arcs.clear();
                 slot.heavy = voices.iter().any(|v| !matches!(v, VoiceRef::Gen(_)));
                 self.stats.probe("reload_voice_set");
                 self.nontrivial = true;
@@ -1065,6 +1140,11 @@ impl<'a> Sim<'a> {
                 for mm in [mutate, mutate2] {
                     if let Some((pos, field, variant)) = mm {
                         if *pos < arcs.len() && arcs.len() >= 2 {
+                            if *variant >= 5 && lossy_trap(&mut arcs, *pos, *field, *variant) {
+                                applied += 1;
+                                self.stats.probe("vsnew_lossy_comparison_trap");
+                                continue;
+                            }
                             let mut v: Voice = (*arcs[*pos]).clone();
                             if mutate_meta(&mut v, *field, *variant) {
                                 arcs[*pos] = Arc::new(v);
@@ -1178,6 +1258,17 @@ impl<'a> Sim<'a> {
                 }
                 Ok(())
             }
+            Op::Reset => {
+                for g in self.gens.iter_mut() {
+                    *g = None;
+                }
+                for e in self.engines.iter_mut() {
+                    *e = None;
+                }
+                self.keys.clear();
+                self.refs.clear();
+                Ok(())
+            }
             Op::DropGen { g } => {
                 if let Some(slot) = self.gens.get_mut(*g) {
                     if let Some(gs) = slot.take() {
@@ -1240,6 +1331,7 @@ impl<'a> Sim<'a> {
                 Ok(Err(_)) => Outcome::Err,
                 Err(p) => {
                     self.stats.vacuous += 1;
+                    self.stats.probe(&format!("synthesize_panicked_at:{}", p.file.rsplit('/').next().unwrap_or("?")));
                     Outcome::Panic { class: p.class() }
                 }
             };
@@ -1285,6 +1377,25 @@ impl<'a> Sim<'a> {
         Ok(())
     }
 
+    /// C02's reference: one-shot synthesis on engine `e`. Ok(None) = not judged (error / vacuous).
+    fn c02_reference(&mut self, e: usize, utt: &Utt) -> Result<Option<Vec<f64>>, Stop> {
+        self.stats.api_calls += 1;
+        let slot = self.engines[e].as_ref().unwrap();
+        let rr = Self::do_synth(self.env, &slot.eng, utt, Form::Slice, None).map_err(Stop::Harness)?;
+        match rr {
+            Ok(Ok(w)) => Ok(Some(w)),
+            Ok(Err(_)) => Ok(None),
+            Err(p) => {
+                if p.msg.contains(FUEL_MSG) {
+                    return Err(self.viol("liveness.fuel", "synthesize-no-progress", "synthesize exhausted its deterministic step budget"));
+                }
+                self.stats.vacuous += 1;
+                self.stats.probe("vacuous_reference_panicked");
+                Ok(None)
+            }
+        }
+    }
+
     fn op_newgen(&mut self, task: u8, e: usize, g: usize, utt: &Utt) -> Result<(), Stop> {
         if g >= MAX_GENS || self.engines.get(e).and_then(|x| x.as_ref()).is_none() {
             self.stats.noop_ops += 1;
@@ -1294,6 +1405,17 @@ impl<'a> Sim<'a> {
         let ns = slot.model.nstream();
         let before = snapshot(&slot.eng.condition, ns);
         let key = self.synth_key(slot, utt, Form::Slice);
+        // C02: where the one-shot reference is taken relative to Engine::generator - a function of the
+        // op alone, so it survives shrinking. 0,1: right after; 2: right before; 3: after, with a
+        // one-shot synthesis of a *different* utterance on the same engine in between (a one-entry
+        // "last utterance" cache is evicted between the two calls that are compared)
+        let ref_mode = if self.prop == Prop::C02 { crate::rng::hash_bytes(format!("{}|{}|{}", utt.to_text(), e, g).as_bytes()) % 4 } else { 0 };
+        let mut early_ref: Option<Option<Vec<f64>>> = None;
+        if ref_mode == 2 {
+            early_ref = Some(self.c02_reference(e, utt)?);
+            self.stats.probe("reference_taken_before_generator");
+        }
+        let slot = self.engines[e].as_ref().unwrap();
         self.stats.api_calls += 1;
         let gr = Self::do_generator(self.env, &slot.eng, utt).map_err(Stop::Harness)?;
         let after = snapshot(&slot.eng.condition, ns);
@@ -1319,23 +1441,21 @@ impl<'a> Sim<'a> {
         let mut frames = 0;
         if self.prop == Prop::C02 {
             // reference: one-shot synthesis on the same engine value, inside the same atomic op
-            self.stats.api_calls += 1;
-            let slot = self.engines[e].as_ref().unwrap();
-            let rr = Self::do_synth(self.env, &slot.eng, utt, Form::Slice, None).map_err(Stop::Harness)?;
-            match rr {
-                Ok(Ok(w)) => {
+            if ref_mode == 3 {
+                let other = Utt { lines: if utt.lines.len() >= 2 { utt.lines[..1].to_vec() } else { vec![utt.lines.first().copied().unwrap_or(0), 7] }, timed: 0 };
+                let _ = self.c02_reference(e, &other)?;
+                self.stats.probe("other_utterance_between_generator_and_reference");
+            }
+            let got = match early_ref {
+                Some(r) => r,
+                None => self.c02_reference(e, utt)?,
+            };
+            match got {
+                Some(w) => {
                     frames = if fp > 0 { w.len() / fp } else { 0 };
                     reference = Some(Rc::new(w));
                 }
-                Ok(Err(_)) => return Ok(()),
-                Err(p) => {
-                    if p.msg.contains(FUEL_MSG) {
-                        return Err(self.viol("liveness.fuel", "synthesize-no-progress", "synthesize exhausted its deterministic step budget"));
-                    }
-                    self.stats.vacuous += 1;
-                    self.stats.probe("vacuous_reference_panicked");
-                    return Ok(());
-                }
+                None => return Ok(()),
             }
             if frames == 0 {
                 self.stats.probe("zero_frame_generator");
@@ -1571,6 +1691,67 @@ fn which_class(w: &Which) -> &'static str {
 
 /// Change exactly one metadata field of a voice. `variant`: 0 grow / append / flip, 1 shrink / remove,
 /// 2 alter in place. Returns false if the field does not exist or the variant cannot change it.
+/// Differences a lossy comparison would miss (numeric fields, variants 5..=9): all voices of the list
+/// are first given the same base value(s), then voice `pos` gets a value that is different but equal
+/// after a ratio is rounded (frames per second), after a conversion to f32, or after truncation to
+/// 32 / 16 bits. Only the metadata is touched; the list is only ever handed to `VoiceSet::new`.
+pub fn lossy_trap(arcs: &mut [Arc<Voice>], pos: usize, f: MetaField, variant: u8) -> bool {
+    fn field<'a>(v: &'a mut Voice, f: MetaField) -> Option<&'a mut usize> {
+        match f {
+            MetaField::SamplingRate => Some(&mut v.metadata.sampling_frequency),
+            MetaField::FramePeriod => Some(&mut v.metadata.frame_period),
+            MetaField::NumStates => Some(&mut v.metadata.num_states),
+            MetaField::VectorLength(i) => v.stream_models.get_mut(i).map(|s| &mut s.metadata.vector_length),
+            MetaField::NumWindows(i) => v.stream_models.get_mut(i).map(|s| &mut s.metadata.num_windows),
+            _ => None,
+        }
+    }
+    let mut vs: Vec<Voice> = arcs.iter().map(|a| (**a).clone()).collect();
+    if field(&mut vs[0], f).is_none() {
+        return false;
+    }
+    let ratio = matches!(f, MetaField::SamplingRate | MetaField::FramePeriod);
+    // (rate, period) pairs whose neighbours give the same rounded frame rate
+    let (base_rate, base_fp, new_rate, new_fp) = match variant {
+        5 => (44100usize, 220usize, 44101usize, 221usize),
+        6 => (96000, 480, 96001, 479),
+        _ => (0, 0, 0, 0),
+    };
+    match variant {
+        5 | 6 if ratio => {
+            for v in vs.iter_mut() {
+                v.metadata.sampling_frequency = base_rate;
+                v.metadata.frame_period = base_fp;
+            }
+            if let MetaField::SamplingRate = f {
+                vs[pos].metadata.sampling_frequency = new_rate;
+            } else {
+                vs[pos].metadata.frame_period = new_fp;
+            }
+        }
+        5 | 6 => return false,
+        7 => {
+            // equal as f32
+            for v in vs.iter_mut() {
+                *field(v, f).unwrap() = 16_777_216;
+            }
+            *field(&mut vs[pos], f).unwrap() = 16_777_217;
+        }
+        8 => {
+            let x = field(&mut vs[pos], f).unwrap();
+            *x = x.wrapping_add(1usize << 32);
+        }
+        _ => {
+            let x = field(&mut vs[pos], f).unwrap();
+            *x = x.wrapping_add(1usize << 16);
+        }
+    }
+    for (a, v) in arcs.iter_mut().zip(vs) {
+        *a = Arc::new(v);
+    }
+    true
+}
+
 pub fn mutate_meta(v: &mut Voice, f: MetaField, variant: u8) -> bool {
     fn num(x: &mut usize, variant: u8) -> bool {
         match variant % 3 {
